@@ -23,7 +23,7 @@ func init() {
 		Assumptions: []string{
 			"the fake broker applies produce requests in arrival order and appends atomically",
 			"scenarios in which the client reported a deadline error are not judged (a delayed first attempt may legitimately be applied after its retry)",
-			"hook writer.awaitBatch.timer only delays the timer goroutine before it takes the partition mutex",
+			"hook writer.awaitBatch.timer only delays the timer goroutine before it takes the partition mutex; hook writer.batchQueue.Put delays the hand-over of a batch to the partition queue (done under the partition mutex)",
 		},
 		Shards:      16,
 		CaseTimeout: 60 * time.Second,
@@ -31,16 +31,25 @@ func init() {
 	})
 }
 
-var c07TimerHits int64
+var c07TimerHits, c07PutHits int64
 
 func runC07(c *core.Ctx) {
 	// widen the window between timer expiry and the partition mutex
-	var tick uint64
+	var tick, ptick uint64
 	kafka.VerifSetPoints(map[string]func(){
 		"writer.awaitBatch.timer": func() {
 			atomic.AddInt64(&c07TimerHits, 1)
 			if n := atomic.AddUint64(&tick, 1); n%3 != 0 {
 				time.Sleep(time.Duration(100+(n%7)*150) * time.Microsecond)
+			}
+		},
+		// the hand-over of a closed batch to the partition queue: the library does it under the partition
+		// mutex, so that a delay here only slows the writer down; if the hand-over ever leaves the mutex the
+		// delay lets a later batch overtake
+		"writer.batchQueue.Put": func() {
+			atomic.AddInt64(&c07PutHits, 1)
+			if n := atomic.AddUint64(&ptick, 1); n%4 == 0 {
+				time.Sleep(time.Duration(200+(n%5)*200) * time.Microsecond)
 			}
 		},
 	})
@@ -71,6 +80,7 @@ func runC07(c *core.Ctx) {
 		wRunWorkload(k, run, wWorkloadOpts{})
 		hits := atomic.LoadInt64(&c07TimerHits) - before
 		c.Count("timer_hook_hits", hits)
+		c.Max("put_hook_hits_total", atomic.LoadInt64(&c07PutHits))
 		checkC07(k, run, hits)
 	})
 }
